@@ -19,14 +19,33 @@
 //	par <n> <u> <rs> <hl> <f> <hex>   n concurrent connections write the same response (oracle only)
 //	slow <u> <rs> <bw> <len>   wall-clock measurement of a throttle with the real 1 s buckets (oracle only)
 //	leak [strict]              close everything, count bucket drain goroutines (oracle only)
+//
+// interleaved histories (inter.go):
+//
+//	wstart <id> <hex> <p>      start Conn.Write in the background; the inner conn parks the first inner
+//	                           write that begins when >= p bytes of this call have been delivered
+//	                           (model op: wstart <id> <hex> <p> <d|->, d = observed park position)
+//	wend <id>                  release the parked write, wait for it, report it like `write`
+//	cfgstart D S*              start a configuration request whose body upload stalls half-way
+//	cfgend                     let the upload finish; reported (and sent to the model) as `config D S*`
+//
+// end-to-end tier (e2e.go): a real martian.Proxy serving the shaped listener over TCP, origin = RoundTripper
+//
+//	dial <id>                  TCP client connection, waits until the proxy accepted it (model op: conn <id>)
+//	req <id> <u> <R> <len>     one exchange on the keep-alive connection; R = - | <k> (Range: bytes=k-, 206)
+//	                           | m<k> (multipart/byteranges 206) | x<k> (206 without usable Content-Range)
+//	                           (model op: resp <id> <u> <rs> <hl> <len>)
+//	hangup <id>                client closes; waits until the proxy closed its side (model op: close <id>)
 package c18
 
 import (
+	"bufio"
 	"fmt"
 	"net"
 	"net/http/httptest"
 	"regexp"
 	"runtime"
+	"runtime/debug"
 	"sort"
 	"strconv"
 	"strings"
@@ -49,7 +68,9 @@ func (P) Rule() string {
 		"negative values, zero counts, null entries, empty/invalid regex, duplicate regex) interleaved with shaped connections created by the real " +
 		"Listener over a recording in-memory conn, responses (URL class, Range start, head length, optional fast bucket of capacity 1..16) and " +
 		"Conn.Write calls with random write sizes, followed by a goroutine leak check; plus concurrent-connection cases and wall-clock throttle " +
-		"measurements; distinct by hash of the op list; non-trivial when the case has at least one accepted configuration and at least one " +
+		"measurements; interleaved histories (a Write parked between two rounds of its loop while configurations are accepted or refused and connections " +
+		"are accepted; connections accepted while a configuration upload is stalled half-way); end-to-end cases (real martian.Proxy on the shaped " +
+		"listener over TCP, keep-alive sequences of matching / non-matching URLs, Range and multipart answers, bodies up to 12000 bytes); distinct by hash of the op list; non-trivial when the case has at least one accepted configuration and at least one " +
 		"write that triggered an action (halt, close or bandwidth change) or at least one rejected configuration followed by a shaped write"
 }
 
@@ -61,7 +82,7 @@ func (P) Nontrivial(ops []string, impl []string) bool {
 			acc = true
 		case strings.HasPrefix(l, "rejected"):
 			rej = true
-		case strings.HasPrefix(l, "w "):
+		case strings.HasPrefix(l, "w ") || strings.HasPrefix(l, "r "):
 			wr = true
 			if !strings.Contains(l, " ev=- ") {
 				act = true
@@ -88,8 +109,16 @@ func init() {
 // ---- log hook: the shaped write loop reports each action it performs through martian/log ----
 
 type hook struct {
-	mu  sync.Mutex
-	evs []string
+	mu      sync.Mutex
+	evs     []string
+	waiting map[string]int // remote addr -> number of "waiting for request" seen
+	closing map[string]int
+}
+
+func (h *hook) seen(addr string) (int, int) {
+	h.mu.Lock()
+	defer h.mu.Unlock()
+	return h.waiting[addr], h.closing[addr]
 }
 
 const pfx = "trafficshape: "
@@ -114,13 +143,27 @@ func (h *hook) Infof(f string, a ...interface{}) {
 	}
 }
 func (h *hook) Debugf(f string, a ...interface{}) {
+	if len(f) > 24 && f[0] == 'm' && len(a) == 1 {
+		// proxy.go: the two points at which an exchange on a client connection is over
+		switch f {
+		case "martian: waiting for request: %v":
+			h.mu.Lock()
+			h.waiting[fmt.Sprint(a[0])]++
+			h.mu.Unlock()
+		case "martian: closing connection: %v":
+			h.mu.Lock()
+			h.closing[fmt.Sprint(a[0])]++
+			h.mu.Unlock()
+		}
+		return
+	}
 	if len(f) > 24 && f[len(pfx)] == 'S' && strings.HasPrefix(f[len(pfx):], "Sleeping for time") && len(a) == 3 {
 		h.add(fmt.Sprintf("s%v@%v", a[0], a[2]))
 	}
 }
 func (h *hook) Errorf(f string, a ...interface{}) {}
 
-var theHook = &hook{}
+var theHook = &hook{waiting: map[string]int{}, closing: map[string]int{}}
 var hookOnce sync.Once
 
 // ---- recording inner conn ----
@@ -129,6 +172,11 @@ type recConn struct {
 	mu     sync.Mutex
 	buf    []byte
 	closed bool
+	// parking (inter.go): the first inner write that begins with len(buf)-base >= parkAt blocks
+	parkAt  int
+	base    int
+	parked  chan int
+	release chan struct{}
 }
 
 type addr struct{}
@@ -142,6 +190,14 @@ func (c *recConn) Write(b []byte) (int, error) {
 	defer c.mu.Unlock()
 	if c.closed {
 		return 0, fmt.Errorf("closed")
+	}
+	if c.parked != nil && len(c.buf)-c.base >= c.parkAt {
+		pc, rel, d := c.parked, c.release, len(c.buf)-c.base
+		c.parked = nil
+		c.mu.Unlock()
+		pc <- d
+		<-rel
+		c.mu.Lock()
 	}
 	c.buf = append(c.buf, b...)
 	return len(b), nil
@@ -158,9 +214,19 @@ func (c *recConn) snapshot() []byte {
 	return append([]byte{}, c.buf...)
 }
 
-type stubListener struct{ ch chan struct{} }
+type stubListener struct {
+	ch chan struct{}
+	in chan net.Conn
+}
 
-func (s *stubListener) Accept() (net.Conn, error) { <-s.ch; return nil, fmt.Errorf("closed") }
+func (s *stubListener) Accept() (net.Conn, error) {
+	select {
+	case c := <-s.in:
+		return c, nil
+	case <-s.ch:
+		return nil, net.ErrClosed
+	}
+}
 func (s *stubListener) Close() error {
 	select {
 	case <-s.ch:
@@ -199,11 +265,13 @@ func settleBase() int {
 }
 
 // waitLoops polls until the number of drain goroutines equals want (they exit asynchronously).
-func waitLoops(want int) int {
+func waitLoops(want int) int { return waitLoopsFor(want, 1500*time.Millisecond) }
+
+func waitLoopsFor(want int, d time.Duration) int {
 	if want < 0 {
 		return bucketLoops()
 	}
-	dl := time.Now().Add(400 * time.Millisecond)
+	dl := time.Now().Add(d)
 	for {
 		n := bucketLoops()
 		if n == want || time.Now().After(dl) {
@@ -232,6 +300,8 @@ type resp struct {
 	headLeft     int64
 	pos          int64 // absolute body offset delivered so far
 	closedByRule bool
+	os           *oShape // the oracle's reading of the shape that applies (configuration current at ctx time)
+	gen          int     // number of accepted configurations at ctx time
 }
 
 type cstate struct {
@@ -245,22 +315,35 @@ type cstate struct {
 	firstDone bool
 	lat       int64
 	cut       bool // a close action already cut this connection's stream ("up to the first close action")
+	// a Write parked inside the inner conn (inter.go)
+	pend *pendingWrite
+	// end-to-end connections (e2e.go)
+	client net.Conn
+	br     *bufio.Reader
+	addr   string
+	nreq   int
 }
 
 type ex struct {
-	sl       *stubListener
-	tsl      *trafficshape.Listener
-	h        *trafficshape.Handler
-	conns    map[string]*cstate
-	order    []string
-	gen      int
-	cfg      map[string]*oShape
-	latency  int64
-	base     int // drain goroutines alive before this case
-	cfgLoops int // global buckets of accepted configurations (never closed by the code: known finding)
-	extra    []*trafficshape.Bucket
-	replaced int
-	slack    int
+	sl         *stubListener
+	tsl        *trafficshape.Listener
+	h          *trafficshape.Handler
+	conns      map[string]*cstate
+	order      []string
+	gen        int
+	cfg        map[string]*oShape
+	latency    int64
+	base       int // drain goroutines alive before this case
+	cfgLoops   int // global buckets of accepted configurations (never closed by the code: known finding)
+	extra      []*trafficshape.Bucket
+	replaced   int
+	slack      int
+	confirmed  bool                   // a goroutine surplus was confirmed with the long wait
+	cfgBuckets []*trafficshape.Bucket // global buckets of accepted configurations (reaped at the very end of the case)
+	poisoned   string                 // a panic or a hang inside the code under test: the rest of the case is skipped
+	pendCfg    *pendingConfig         // a configuration request whose upload is stalled (inter.go)
+	nParked    int                    // writes parked inside the inner conn (they hold bucket mutexes)
+	w          *e2eWorld              // real proxy on the shaped listener (e2e.go), started by the first `dial`
 }
 
 // expected is the number of drain goroutines the harness can account for right now.
@@ -282,6 +365,12 @@ func (e *ex) expected() int {
 func (e *ex) settle() int {
 	want := e.expected()
 	d := waitLoops(want) - want
+	if d != 0 && !e.confirmed {
+		// a bound-dependent verdict: on a loaded machine a goroutine may need longer to exit; confirm
+		// (once per case: a tree that really leaks must not cost seconds per op)
+		d = waitLoopsFor(want, 3*time.Second) - want
+		e.confirmed = d != 0
+	}
 	e.slack += d
 	return d
 }
@@ -290,20 +379,66 @@ func (P) NewExec() core.Exec {
 	hookOnce.Do(func() { mlog.SetLogger(theHook) })
 	e := &ex{conns: map[string]*cstate{}, cfg: map[string]*oShape{}}
 	e.base = settleBase()
-	e.sl = &stubListener{ch: make(chan struct{})}
+	e.sl = &stubListener{ch: make(chan struct{}), in: make(chan net.Conn)}
 	e.tsl = trafficshape.NewListener(e.sl)
 	e.h = trafficshape.NewHandler(e.tsl)
 	theHook.take()
 	return e
 }
 
+// Close is what the runner calls at the end of a case: everything is closed, and the global shape
+// buckets that the code never closes (the open finding, counted by `leak` before) are reaped so that
+// their drain goroutines do not pile up over thousands of cases.
 func (e *ex) Close() {
+	e.closeAll()
+	e.reap()
+}
+
+// collect remembers the global buckets of the shapes that are active right now.
+func (e *ex) collect(l *trafficshape.Listener) {
+	l.Shapes.RLock()
+	for _, us := range l.Shapes.M {
+		if us.Shape != nil && us.Shape.WriteBucket != nil {
+			e.cfgBuckets = append(e.cfgBuckets, us.Shape.WriteBucket)
+		}
+	}
+	l.Shapes.RUnlock()
+}
+
+func (e *ex) reap() {
+	for _, b := range e.cfgBuckets {
+		b.Close()
+	}
+	e.cfgLoops -= len(e.cfgBuckets)
+	if e.cfgLoops < 0 {
+		e.cfgLoops = 0
+	}
+	e.cfgBuckets = nil
+	waitLoops(e.expected())
+}
+
+func (e *ex) closeAll() {
+	e.abortPending()
 	for _, id := range e.order {
 		cs := e.conns[id]
+		if cs.client != nil {
+			// an end-to-end connection belongs to the proxy: its handler closes the shaped conn when the
+			// client hangs up (Conn.Close from two goroutines at once is not something the proxy does)
+			if !cs.closed {
+				_, c0 := theHook.seen(cs.addr)
+				cs.client.Close()
+				waitProxy(cs.addr, 1<<30, c0, 5*time.Second)
+				cs.closed = true
+			}
+			continue
+		}
 		if !cs.closed {
 			cs.c.Close()
 			cs.closed = true
 		}
+	}
+	if e.w != nil {
+		e.w.stop()
 	}
 	for _, b := range e.extra {
 		b.Close()
@@ -313,6 +448,10 @@ func (e *ex) Close() {
 		e.tsl.Close()
 		e.tsl = nil
 	}
+	if e.w != nil {
+		e.w.finish()
+		e.w = nil
+	}
 	waitLoops(e.expected())
 }
 
@@ -320,12 +459,61 @@ func fail(sig, format string, a ...interface{}) core.Result {
 	return core.Result{Impl: "fail", Fail: fmt.Sprintf(format, a...), Sig: sig}
 }
 
+// Do runs one op under its own watchdog: a Go panic or a deadlock inside the code under test is
+// reported once (kind panic / hang) and the rest of the case is skipped, because a panic under a
+// bucket mutex leaves every later operation on that bucket blocked for ever.
 func (e *ex) Do(op string) core.Result {
+	if e.poisoned != "" {
+		return core.Result{Impl: "skipped", SkipModel: true}
+	}
+	ch := make(chan core.Result, 1)
+	go func() {
+		defer func() {
+			if x := recover(); x != nil {
+				st := string(debug.Stack())
+				if len(st) > 1500 {
+					st = st[:1500]
+				}
+				ch <- core.Result{Impl: "panic", Fail: fmt.Sprintf("panic: %v\n%s", x, st), Sig: "panic"}
+			}
+		}()
+		ch <- e.do(op)
+	}()
+	select {
+	case r := <-ch:
+		if r.Sig == "panic" || r.Sig == "hang" {
+			e.poisoned = r.Sig
+		}
+		return r
+	case <-time.After(opWatchdog):
+		e.poisoned = "hang"
+		return core.Result{Impl: "hang", Fail: "operation did not return within " + opWatchdog.String(), Sig: "hang"}
+	}
+}
+
+// opWatchdog is slightly below core.OpTimeout so that the executor learns about the hang itself.
+const opWatchdog = 28 * time.Second
+
+func (e *ex) do(op string) core.Result {
 	t := strings.Fields(op)
 	if len(t) == 0 {
 		return core.Result{Impl: "bad-op"}
 	}
 	switch {
+	case t[0] == "wstart" && len(t) == 4:
+		return e.doWStart(t[1], t[2], t[3])
+	case t[0] == "wend" && len(t) == 2:
+		return e.doWEnd(t[1])
+	case t[0] == "cfgstart" && len(t) >= 2:
+		return e.doCfgStart(t[1:])
+	case t[0] == "cfgend" && len(t) == 1:
+		return e.doCfgEnd()
+	case t[0] == "dial" && len(t) == 2:
+		return e.doDial(t[1])
+	case t[0] == "req" && len(t) == 5:
+		return e.doReq(t[1], t[2], t[3], t[4])
+	case t[0] == "hangup" && len(t) == 2:
+		return e.doHangup(t[1])
 	case t[0] == "config" && len(t) >= 2:
 		return e.doConfig(t[1:])
 	case t[0] == "configraw" && len(t) == 2:
@@ -640,7 +828,15 @@ func (e *ex) doConfig(toks []string) core.Result {
 	if !ok {
 		return core.Result{Impl: "bad-op"}
 	}
+	if e.pendCfg != nil {
+		return core.Result{Impl: "bad-op"}
+	}
 	code, rb := e.post(body)
+	return e.configured(code, rb, body, shapes, def)
+}
+
+// configured judges the answer of the shaping endpoint and updates the oracle's view.
+func (e *ex) configured(code int, rb, body string, shapes []rawShape, def []int64) core.Result {
 	if code == -1 {
 		return fail("hang", "ServeHTTP did not return")
 	}
@@ -684,6 +880,7 @@ func (e *ex) doConfig(toks []string) core.Result {
 			e.cfg[s.regexID] = os
 		}
 		e.cfgLoops += n
+		e.collect(e.tsl)
 		e.latency = 0
 		if def != nil {
 			e.latency = def[2]
@@ -802,16 +999,16 @@ func (e *ex) doCtx(id, u, rsS, hlS, f string) core.Result {
 	url, ok2 := urlOf[u]
 	rs, err1 := strconv.ParseInt(rsS, 10, 64)
 	hl, err2 := strconv.ParseInt(hlS, 10, 64)
-	if !ok || !ok2 || err1 != nil || err2 != nil || cs.closed || hl < 0 || rs < -1 {
+	if !ok || !ok2 || err1 != nil || err2 != nil || cs.closed || hl < 0 || rs < -1 || cs.pend != nil || cs.client != nil {
 		return core.Result{Impl: "bad-op"}
 	}
 	setContext(cs.c, url, rs, hl)
 	e.useFast(cs.c, f)
 	ctx := cs.c.Context
 	// oracle bookkeeping: is this response expected to be shaped at all?
-	r := &resp{rs: rs, hl: hl, headLeft: hl, pos: rs}
-	if _, has := e.cfg[u]; has && cs.gen == e.gen && rs > -1 {
-		r.shaped, r.regex = true, u
+	r := &resp{rs: rs, hl: hl, headLeft: hl, pos: rs, gen: e.gen}
+	if os, has := e.cfg[u]; has && cs.gen == e.gen && rs > -1 {
+		r.shaped, r.regex, r.os = true, u, os
 	}
 	cs.resp = r
 	if !ctx.Shaping {
@@ -855,7 +1052,7 @@ func isPrefix(p, s []byte) bool { return len(p) <= len(s) && string(s[:len(p)]) 
 func (e *ex) doWrite(id, hx string) core.Result {
 	cs, ok := e.conns[id]
 	data, ok2 := core.Unhex(hx)
-	if !ok || !ok2 || cs.closed {
+	if !ok || !ok2 || cs.closed || cs.pend != nil || cs.client != nil || e.nParked > 0 {
 		return core.Result{Impl: "bad-op"}
 	}
 	theHook.take()
@@ -863,9 +1060,14 @@ func (e *ex) doWrite(id, hx string) core.Result {
 	t0 := time.Now()
 	n, err := cs.c.Write(data)
 	el := time.Since(t0)
+	return e.wrote(id, cs, data, cs.rec.snapshot()[before:], n, err, el, -1, "w", true)
+}
+
+// wrote reports one finished Conn.Write (or one whole response of the end-to-end tier) and judges it.
+// delta = what the client side received for it; reconfAt >= 0: a configuration was accepted while
+// this call had delivered reconfAt bytes (interleaved histories); tag/withBytes select the line format.
+func (e *ex) wrote(id string, cs *cstate, data, delta []byte, n int, err error, el time.Duration, reconfAt int64, tag string, withBytes bool) core.Result {
 	evs := theHook.take()
-	all := cs.rec.snapshot()
-	delta := all[before:]
 	cs.written = append(cs.written, data...)
 	st := "ok"
 	if err != nil {
@@ -897,7 +1099,11 @@ func (e *ex) doWrite(id, hx string) core.Result {
 	if rid != "-" {
 		cnt = e.counts(rid)
 	}
-	impl := fmt.Sprintf("w n=%d st=%s d=%s off=%d hw=%d next=%s shaping=%d cap=%s ev=%s counts=%s", n, st, core.Hex(delta),
+	dS := ""
+	if withBytes {
+		dS = " d=" + core.Hex(delta)
+	}
+	impl := fmt.Sprintf("%s n=%d st=%s%s off=%d hw=%d next=%s shaping=%d cap=%s ev=%s counts=%s", tag, n, st, dS,
 		ctx.ByteOffset, ctx.HeaderBytesWritten, nextStr(ctx.NextActionInfo), sh, capS, ev, cnt)
 	res := core.Result{Impl: impl}
 	bad := func(sig, format string, a ...interface{}) core.Result {
@@ -909,11 +1115,13 @@ func (e *ex) doWrite(id, hx string) core.Result {
 	if st == "close" {
 		defer func() { cs.cut = true }()
 	}
-	if !cs.cut && !isPrefix(all, cs.written) {
-		return bad("c18:bytes-altered", "received bytes are not a prefix of the written bytes (conn %s): wrote %x, received %x", id, cs.written, all)
+	if cs.rec != nil {
+		if all := cs.rec.snapshot(); !cs.cut && !isPrefix(all, cs.written) {
+			return bad("c18:bytes-altered", "received bytes are not a prefix of the written bytes (conn %s): wrote %s, received %s", id, brief(cs.written), brief(all))
+		}
 	}
-	if string(delta) != string(data[:len(delta)]) || n != len(delta) {
-		return bad("c18:bytes-altered", "this write delivered %x (n=%d) which is not a prefix of its data %x", delta, n, data)
+	if len(delta) > len(data) || string(delta) != string(data[:len(delta)]) || n != len(delta) {
+		return bad("c18:bytes-altered", "this write delivered %s (n=%d) which is not a prefix of its data %s", brief(delta), n, brief(data))
 	}
 	if st == "err" {
 		return bad("c18:write-error", "Write failed with %v", err)
@@ -954,7 +1162,26 @@ func (e *ex) doWrite(id, hx string) core.Result {
 		}
 		return res
 	}
-	os := e.cfg[r.regex]
+	os := r.os
+	// A configuration accepted after the response began (between two writes, or while this write was
+	// parked): from body position `limit` on the old shape need not act any more, and the new
+	// configuration must not act on this older connection at all.
+	limit := int64(1) << 62
+	if r.gen != e.gen {
+		// between two writes: nothing of this write is owed to the old shape; parked at d bytes of this
+		// call: the actions at body offsets up to (and including) the park position had been performed
+		limit = posBefore - 1
+		if reconfAt >= hp {
+			limit = posBefore + reconfAt - hp
+		}
+		core.Count("write:across-reconfiguration")
+		for _, x := range evs {
+			k, perr := strconv.ParseInt(x[strings.LastIndex(x, "@")+1:], 10, 64)
+			if perr == nil && !os.actsAt(k) {
+				return bad("c18:action-on-older-conn", "conn %s was accepted under configuration %d; after configuration %d was accepted it performed %s, which is no action of its own shape", id, r.gen, e.gen, x)
+			}
+		}
+	}
 	active := func(lo, hi int64) *oAct { // first active close with lo <= byte < hi
 		var best *oAct
 		for _, c := range os.closes {
@@ -977,30 +1204,44 @@ func (e *ex) doWrite(id, hx string) core.Result {
 			}
 		}
 		if hit == nil {
+			if r.gen != e.gen {
+				return bad("c18:action-on-older-conn", "conn %s (configuration %d) was closed after body offset %d, where only configuration %d has a close action", id, r.gen, r.pos, e.gen)
+			}
 			return bad("c18:close-at-wrong-offset", "closed after body offset %d (range start %d) where no active close action is configured", r.pos, r.rs)
 		}
-		if sk := active(posBefore, r.pos); sk != nil {
-			return bad("c18:close-skipped", "active close action at offset %d was passed; closed only at %d", sk.byt, r.pos)
+		if hi := r.pos; true {
+			if hi > limit+1 {
+				hi = limit + 1
+			}
+			if sk := active(posBefore, hi); sk != nil && sk.byt < r.pos {
+				return bad("c18:close-skipped", "active close action at offset %d was passed; closed only at %d", sk.byt, r.pos)
+			}
 		}
 		if hit.rem > 0 {
 			hit.rem--
 		}
 		r.closedByRule = true
 		// the proxy closes a connection whose write failed; so does the harness
-		cs.c.Close()
-		cs.closed = true
-		if d := e.settle(); d != 0 {
-			return bad("c18:leak:conn-local-buckets", "closing the cut connection (%d per-shape bucket pairs) left %d drain goroutines running", cs.nLocal, d)
+		if cs.client == nil {
+			cs.c.Close()
+			cs.closed = true
+			if d := e.settle(); d != 0 {
+				return bad("c18:leak:conn-local-buckets", "closing the cut connection (%d per-shape bucket pairs) left %d drain goroutines running", cs.nLocal, d)
+			}
 		}
 	case "ok":
 		if len(delta) != len(data) {
 			return bad("c18:short-write", "Write returned no error but delivered %d of %d bytes", len(delta), len(data))
 		}
 		if bodyLen > 0 {
-			if sk := active(posBefore, r.pos); sk != nil && (sk.byt > posBefore || posBefore == r.rs) {
+			hi := r.pos
+			if hi > limit+1 {
+				hi = limit + 1
+			}
+			if sk := active(posBefore, hi); sk != nil && sk.byt < r.pos && (sk.byt > posBefore || posBefore == r.rs) {
 				return bad("c18:close-skipped", "active close action at offset %d (range start %d) did not close; body offsets %d..%d were delivered", sk.byt, r.rs, posBefore, r.pos)
 			}
-			if c := active(r.pos, r.pos+1); c != nil {
+			if c := active(r.pos, r.pos+1); c != nil && r.pos <= limit {
 				shared := os.bounds[c.byt]
 				for _, h := range os.halts {
 					if h.byt == c.byt {
@@ -1020,7 +1261,7 @@ func (e *ex) doWrite(id, hx string) core.Result {
 	}
 	// delays (measurement): latency once per connection, infinite-count halts strictly inside the written span
 	for _, h := range os.halts {
-		if h.rem == -1 && h.byt > posBefore && h.byt < r.pos && h.byt >= r.rs {
+		if h.rem == -1 && h.byt > posBefore && h.byt < r.pos && h.byt >= r.rs && h.byt <= limit {
 			want += time.Duration(h.dur) * time.Millisecond
 		}
 	}
@@ -1033,9 +1274,37 @@ func (e *ex) doWrite(id, hx string) core.Result {
 	return res
 }
 
+func brief(b []byte) string {
+	if len(b) <= 48 {
+		return fmt.Sprintf("%x", b)
+	}
+	return fmt.Sprintf("%x…(%d bytes)…%x", b[:16], len(b), b[len(b)-16:])
+}
+
+// actsAt: does the shape have any action (halt, close, throttle boundary) at body offset k?
+func (o *oShape) actsAt(k int64) bool {
+	if o == nil {
+		return false
+	}
+	if o.bounds[k] {
+		return true
+	}
+	for _, h := range o.halts {
+		if h.byt == k {
+			return true
+		}
+	}
+	for _, c := range o.closes {
+		if c.byt == k {
+			return true
+		}
+	}
+	return false
+}
+
 func (e *ex) doClose(id string) core.Result {
 	cs, ok := e.conns[id]
-	if !ok || cs.closed {
+	if !ok || cs.closed || cs.pend != nil || cs.client != nil {
 		return core.Result{Impl: "bad-op"}
 	}
 	cs.c.Close()
@@ -1052,7 +1321,7 @@ func (e *ex) doClose(id string) core.Result {
 
 func (e *ex) doLeak(strict bool) core.Result {
 	r := core.Result{SkipModel: true, Impl: "leak ok"}
-	e.Close()
+	e.closeAll()
 	// what must be gone: the local buckets of every open connection, the listener's two buckets and the harness' own fast buckets
 	d := e.settle()
 	left := e.cfgLoops + d
